@@ -97,7 +97,13 @@ type PropInfo struct {
 
 var props = map[string]*PropInfo{}
 
-func regProp(p *PropInfo) { props[p.ID] = p }
+func regProp(p *PropInfo) {
+	if t, ok := pendingDecided[p.ID]; ok {
+		p.Decided += t
+		delete(pendingDecided, p.ID)
+	}
+	props[p.ID] = p
+}
 
 func rulesFor(prop string) []*Rule {
 	var out []*Rule
